@@ -1,7 +1,1995 @@
-//! C07 — not implemented yet.
+//! C07 — query matching follows the documented query semantics.
+//! Engine: inputmc query. Small worlds (schema x corpus x segment layout x one optional deletion)
+//! x enumerated query trees; the hit-id SET of the real search (execution=bm25, limit=100) is
+//! compared with an independent boolean evaluator working on the real analyzer's token streams.
+//!
+//! Three fully enumerated slices (see `rule` in the evidence):
+//!  A  leaf semantics   : full text alphabet x full leaf alphabet (+ unary wrappers)
+//!  B  combinators      : core texts x all trees up to a leaf/depth bound over the core leaves
+//!  C  fuzzy            : slice-A worlds x fuzzy options x positive term-bearing leaves / pairs
+//! plus the second obligation: every token the index analyzer emits for a live document finds it.
+//!
+//! Failures are classified by narrow predicates (`classify`): each models one defect of the code
+//! and must reproduce the observed hit set exactly; anything else is reported unexplained.
+//! Cases the documentation does not decide are skipped and counted, never judged.
+//! Test aid: VERIF_C07_BUDGET_S overrides the wall budget (33 s quick / 870 s thorough).
+
+use std::collections::{BTreeMap, BTreeSet, HashMap};
+use std::sync::atomic::{AtomicBool, AtomicU64, Ordering};
+
+use parking_lot::Mutex;
+use rayon::prelude::*;
+use searchlite_core::analysis::analyzer::Analyzer;
+use searchlite_core::api::types::SearchRequest;
+use serde::{Deserialize, Serialize};
+use serde_json::{json, Value};
+
+use vcore::ev::Reporter;
+use vcore::inp::*;
+use vcore::world::*;
+
 use crate::Ctx;
 
-pub fn run(_ctx: &Ctx) -> i32 {
-  eprintln!("C07: check not implemented");
-  2
+// ---------------------------------------------------------------------------------------------
+// Query alphabet
+
+#[derive(Clone, Debug, Serialize, Deserialize, PartialEq)]
+enum Msm {
+  Count(usize),
+  Pct(u32),
+}
+
+type Scoped = (Option<String>, String);
+
+#[derive(Clone, Debug, Serialize, Deserialize)]
+enum Leaf {
+  MatchAll,
+  Term { field: String, value: String },
+  /// `text` is what is sent; terms / nots / phrases is the structure the text was written from
+  /// (the oracle never parses `text`).
+  Qs { text: String, legacy: bool, fields: Option<Vec<String>>, terms: Vec<Scoped>, nots: Vec<Scoped>, phrases: Vec<(Option<String>, Vec<String>)> },
+  Phrase { field: Option<String>, terms: Vec<String>, slop: u32 },
+  Prefix { field: String, value: String },
+  Wildcard { field: String, value: String },
+  Regex { field: String, value: String },
+  MultiMatch { terms: Vec<String>, fields: Vec<String>, mtype: String, and: Option<bool>, msm: Option<Msm> },
+  ConstScore { field: String, value: String },
+  RankFeature { field: String },
+}
+
+impl Leaf {
+  fn to_json(&self) -> Value {
+    match self {
+      Leaf::MatchAll => json!({"type": "match_all"}),
+      Leaf::Term { field, value } => json!({"type": "term", "field": field, "value": value}),
+      Leaf::Qs { text, legacy, fields, .. } => {
+        if *legacy {
+          json!(text)
+        } else if let Some(f) = fields {
+          json!({"type": "query_string", "query": text, "fields": f})
+        } else {
+          json!({"type": "query_string", "query": text})
+        }
+      }
+      Leaf::Phrase { field, terms, slop } => {
+        let mut v = json!({"type": "phrase", "terms": terms});
+        if let Some(f) = field {
+          v["field"] = json!(f);
+        }
+        if *slop > 0 {
+          v["slop"] = json!(slop);
+        }
+        v
+      }
+      Leaf::Prefix { field, value } => json!({"type": "prefix", "field": field, "value": value}),
+      Leaf::Wildcard { field, value } => json!({"type": "wildcard", "field": field, "value": value}),
+      Leaf::Regex { field, value } => json!({"type": "regex", "field": field, "value": value}),
+      Leaf::MultiMatch { terms, fields, mtype, and, msm } => {
+        let mut v = json!({"type": "multi_match", "query": terms.join(" "), "fields": fields, "match_type": mtype});
+        if let Some(a) = and {
+          v["operator"] = json!(if *a { "and" } else { "or" });
+        }
+        match msm {
+          Some(Msm::Count(k)) => v["minimum_should_match"] = json!(k),
+          Some(Msm::Pct(p)) => v["minimum_should_match"] = json!(format!("{p}%")),
+          None => {}
+        }
+        v
+      }
+      Leaf::ConstScore { field, value } => json!({"type": "constant_score", "filter": {"KeywordEq": {"field": field, "value": value}}}),
+      Leaf::RankFeature { field } => json!({"type": "rank_feature", "field": field}),
+    }
+  }
+  /// May this leaf be sent together with a request-level `fuzzy` option? (Only leaves made of
+  /// positive terms: the docs do not say how fuzzy interacts with negation, phrases or patterns.)
+  fn fuzzy_ok(&self) -> bool {
+    match self {
+      Leaf::MatchAll | Leaf::Term { .. } => true,
+      Leaf::Qs { nots, phrases, .. } => nots.is_empty() && phrases.is_empty(),
+      Leaf::MultiMatch { .. } => true,
+      _ => false,
+    }
+  }
+}
+
+#[derive(Clone, Debug, Serialize, Deserialize)]
+enum Tree {
+  L(usize),
+  Bool { must: Vec<Tree>, should: Vec<Tree>, must_not: Vec<Tree>, filter: Option<(String, String)>, msm: Option<usize> },
+  DisMax(Vec<Tree>),
+  /// function_score(inner, functions=[weight 2], boost_mode=replace, min_score)
+  Fs { inner: Box<Tree>, min_score: Option<f32> },
+  /// script_score(inner, "_score + 1")
+  Ss(Box<Tree>),
+}
+
+impl Tree {
+  fn to_json(&self, leaves: &[Leaf]) -> Value {
+    match self {
+      Tree::L(i) => leaves[*i].to_json(),
+      Tree::Bool { must, should, must_not, filter, msm } => {
+        let mut v = json!({"type": "bool"});
+        let arr = |ts: &Vec<Tree>| Value::Array(ts.iter().map(|t| t.to_json(leaves)).collect());
+        if !must.is_empty() {
+          v["must"] = arr(must);
+        }
+        if !should.is_empty() {
+          v["should"] = arr(should);
+        }
+        if !must_not.is_empty() {
+          v["must_not"] = arr(must_not);
+        }
+        if let Some((f, val)) = filter {
+          v["filter"] = json!([{"KeywordEq": {"field": f, "value": val}}]);
+        }
+        if let Some(m) = msm {
+          v["minimum_should_match"] = json!(m);
+        }
+        v
+      }
+      Tree::DisMax(ts) => json!({"type": "dis_max", "queries": ts.iter().map(|t| t.to_json(leaves)).collect::<Vec<_>>()}),
+      Tree::Fs { inner, min_score } => {
+        let mut v = json!({"type": "function_score", "query": inner.to_json(leaves), "functions": [{"type": "weight", "weight": 2.0}], "boost_mode": "replace"});
+        if let Some(m) = min_score {
+          v["min_score"] = json!(m);
+        }
+        v
+      }
+      Tree::Ss(inner) => json!({"type": "script_score", "query": inner.to_json(leaves), "script": "_score + 1"}),
+    }
+  }
+  fn n_leaves(&self) -> usize {
+    match self {
+      Tree::L(_) => 1,
+      Tree::Bool { must, should, must_not, .. } => must.iter().chain(should).chain(must_not).map(|t| t.n_leaves()).sum(),
+      Tree::DisMax(ts) => ts.iter().map(|t| t.n_leaves()).sum(),
+      Tree::Fs { inner, .. } => inner.n_leaves(),
+      Tree::Ss(inner) => inner.n_leaves(),
+    }
+  }
+  fn depth(&self) -> usize {
+    match self {
+      Tree::L(_) => 0,
+      Tree::Bool { must, should, must_not, .. } => 1 + must.iter().chain(should).chain(must_not).map(|t| t.depth()).max().unwrap_or(0),
+      Tree::DisMax(ts) => 1 + ts.iter().map(|t| t.depth()).max().unwrap_or(0),
+      Tree::Fs { inner, .. } => 1 + inner.depth(),
+      Tree::Ss(inner) => 1 + inner.depth(),
+    }
+  }
+  fn leaf_ids(&self, out: &mut Vec<usize>) {
+    match self {
+      Tree::L(i) => out.push(*i),
+      Tree::Bool { must, should, must_not, .. } => must.iter().chain(should).chain(must_not).for_each(|t| t.leaf_ids(out)),
+      Tree::DisMax(ts) => ts.iter().for_each(|t| t.leaf_ids(out)),
+      Tree::Fs { inner, .. } => inner.leaf_ids(out),
+      Tree::Ss(inner) => inner.leaf_ids(out),
+    }
+  }
+  fn remap(&self, map: &HashMap<usize, usize>) -> Tree {
+    let rm = |ts: &Vec<Tree>| ts.iter().map(|t| t.remap(map)).collect::<Vec<_>>();
+    match self {
+      Tree::L(i) => Tree::L(map[i]),
+      Tree::Bool { must, should, must_not, filter, msm } => Tree::Bool { must: rm(must), should: rm(should), must_not: rm(must_not), filter: filter.clone(), msm: *msm },
+      Tree::DisMax(ts) => Tree::DisMax(rm(ts)),
+      Tree::Fs { inner, min_score } => Tree::Fs { inner: Box::new(inner.remap(map)), min_score: *min_score },
+      Tree::Ss(inner) => Tree::Ss(Box::new(inner.remap(map))),
+    }
+  }
+}
+
+#[derive(Clone, Debug, Serialize, Deserialize, PartialEq)]
+struct Fuzzy {
+  max_edits: u8,
+  prefix_length: usize,
+  min_length: usize,
+}
+
+impl Fuzzy {
+  fn to_json(&self) -> Value {
+    json!({"max_edits": self.max_edits, "prefix_length": self.prefix_length, "min_length": self.min_length, "max_expansions": 50})
+  }
+}
+
+fn fuzzy_options() -> Vec<Fuzzy> {
+  vec![
+    Fuzzy { max_edits: 1, prefix_length: 0, min_length: 1 },
+    Fuzzy { max_edits: 1, prefix_length: 1, min_length: 1 },
+    Fuzzy { max_edits: 2, prefix_length: 0, min_length: 1 },
+    Fuzzy { max_edits: 2, prefix_length: 1, min_length: 2 },
+    Fuzzy { max_edits: 1, prefix_length: 0, min_length: 3 },
+  ]
+}
+
+// ---------------------------------------------------------------------------------------------
+// Schema specs: schema, document shapes, token / phrase / pattern alphabets.
+
+struct Spec {
+  name: &'static str,
+  schema: Value,
+  text_fields: Vec<&'static str>,
+  kw: bool,
+  /// document shapes of slice A / C (without `_id`)
+  docs_full: Vec<Value>,
+  /// document shapes of slice B
+  docs_core: Vec<Value>,
+  tokens: Vec<&'static str>,
+  phrases: Vec<Vec<&'static str>>,
+  prefixes: Vec<&'static str>,
+  wildcards: Vec<&'static str>,
+  regexes: Vec<&'static str>,
+  /// tokens used by the core leaves (a, b) and the third token of the 3-term phrase
+  core: (&'static str, &'static str, &'static str),
+}
+
+fn bodies(texts: &[&str]) -> Vec<Value> {
+  texts.iter().map(|t| json!({"body": t})).collect()
+}
+
+fn one_text_schema(analyzer_def: Option<Value>, analyzer: &str) -> Value {
+  let mut s = json!({"doc_id_field": "_id",
+    "text_fields": [{"name": "body", "analyzer": analyzer, "stored": true, "indexed": true}],
+    "keyword_fields": [], "numeric_fields": []});
+  if let Some(d) = analyzer_def {
+    s["analyzers"] = json!([d]);
+  }
+  s
+}
+
+fn specs() -> Vec<Spec> {
+  vec![
+    Spec {
+      name: "S0-default",
+      schema: one_text_schema(None, "default"),
+      text_fields: vec!["body"],
+      kw: false,
+      docs_full: bodies(&["a", "b", "a b", "b a", "ab", "a c b", "a c c b", "abc a", "A,B", "", "b ab", "c"]),
+      docs_core: bodies(&["a", "b", "a b", "b a", "c"]),
+      tokens: vec!["a", "b", "ab", "abc", "c", "A"],
+      phrases: vec![vec!["a", "b"], vec!["b", "a"], vec!["a", "c", "b"], vec!["a"]],
+      prefixes: vec!["a", "ab", "b", "A"],
+      wildcards: vec!["a*", "?b", "a*c", "a?", "*", "a*b*"],
+      regexes: vec!["a.*", "ab?c?", "(a|b)c", "a(b|bc)", "[ab]"],
+      core: ("a", "b", "c"),
+    },
+    Spec {
+      name: "S1-whitespace",
+      schema: one_text_schema(Some(json!({"name": "ws", "tokenizer": "whitespace"})), "ws"),
+      text_fields: vec!["body"],
+      kw: false,
+      docs_full: bodies(&["a", "A", "a b", "b a", "a,b", "a  b", "ab", "A b", "b", "", "a-b c", "a c b"]),
+      docs_core: bodies(&["a", "b", "a b", "b a", "A"]),
+      tokens: vec!["a", "A", "b", "a,b", "ab", "c"],
+      phrases: vec![vec!["a", "b"], vec!["A", "b"], vec!["a", "c", "b"], vec!["a"]],
+      prefixes: vec!["a", "A", "a,"],
+      wildcards: vec!["a*", "?b", "a?b"],
+      regexes: vec!["a.*", "[aA]"],
+      core: ("a", "b", "c"),
+    },
+    Spec {
+      name: "S1-unicode",
+      schema: one_text_schema(Some(json!({"name": "uni", "tokenizer": "unicode"})), "uni"),
+      text_fields: vec!["body"],
+      kw: false,
+      docs_full: bodies(&["a", "b", "a b", "É", "é a", "ﬁ", "fi b", "a.b", "ab", "", "b a", "A"]),
+      docs_core: bodies(&["a", "b", "a b", "b a", "É"]),
+      tokens: vec!["a", "b", "é", "É", "fi", "ﬁ", "ab"],
+      phrases: vec![vec!["a", "b"], vec!["é", "a"], vec!["fi", "b"], vec!["a"]],
+      prefixes: vec!["a", "f", "é", "É"],
+      wildcards: vec!["a*", "f?", "a*b"],
+      regexes: vec!["a.*", "f.*", "(a|é)"],
+      core: ("a", "b", "é"),
+    },
+    Spec {
+      name: "S2-stop+stem",
+      schema: one_text_schema(Some(json!({"name": "english", "tokenizer": "default", "filters": [{"stopwords": "en"}, {"stemmer": "english"}]})), "english"),
+      text_fields: vec!["body"],
+      kw: false,
+      docs_full: bodies(&["run", "running", "the run", "run the fox", "fox", "foxes run", "the", "fox run", "runs", "", "the fox", "run fox"]),
+      docs_core: bodies(&["run", "fox", "run the fox", "foxes running", "the"]),
+      tokens: vec!["run", "running", "runs", "fox", "foxes", "the"],
+      phrases: vec![vec!["run", "fox"], vec!["run", "the", "fox"], vec!["fox", "run"], vec!["running", "foxes"], vec!["the"]],
+      prefixes: vec!["run", "fo", "ru", "f"],
+      wildcards: vec!["ru*", "f?x", "r*n"],
+      regexes: vec!["r.*", "fox(es)?", "(run|fox)"],
+      core: ("run", "fox", "the"),
+    },
+    Spec {
+      name: "S2-synonyms",
+      schema: one_text_schema(Some(json!({"name": "syn", "tokenizer": "default", "filters": [{"synonyms": [{"from": ["car"], "to": ["auto"]}]}]})), "syn"),
+      text_fields: vec!["body"],
+      kw: false,
+      docs_full: bodies(&["car", "auto", "a car", "car b", "auto b", "a", "b", "a auto", "car auto", "", "b car a", "a b"]),
+      docs_core: bodies(&["car", "auto", "car b", "b auto", "b"]),
+      tokens: vec!["car", "auto", "a", "b"],
+      phrases: vec![vec!["a", "car"], vec!["a", "auto"], vec!["car", "b"], vec!["auto", "b"], vec!["car", "auto"], vec!["car"]],
+      prefixes: vec!["ca", "au", "a"],
+      wildcards: vec!["c*r", "au*", "?ar"],
+      regexes: vec!["(car|auto)", "ca.*"],
+      core: ("car", "b", "auto"),
+    },
+    Spec {
+      name: "S3-text+kw",
+      schema: json!({"doc_id_field": "_id",
+        "text_fields": [{"name": "body", "analyzer": "default", "stored": true, "indexed": true},
+                        {"name": "title", "analyzer": "default", "stored": true, "indexed": true}],
+        "keyword_fields": [{"name": "kw", "stored": true, "indexed": true, "fast": true}],
+        "numeric_fields": [{"name": "n", "i64": true, "fast": true, "stored": true}]}),
+      text_fields: vec!["body", "title"],
+      kw: true,
+      docs_full: vec![
+        json!({"body": "a", "title": "b", "kw": "x", "n": 1}),
+        json!({"body": "b", "title": "a", "kw": "y", "n": 2}),
+        json!({"body": ["a", "b"], "title": "c", "kw": "x", "n": 2}),
+        json!({"body": ["a b", "c"], "title": "a", "kw": "y", "n": 1}),
+        json!({"body": "a b", "title": "", "kw": "x", "n": 1}),
+        json!({"body": "b a", "title": "a b", "kw": "y", "n": 2}),
+        json!({"body": ["b", "a"], "title": "b", "kw": "x", "n": 1}),
+        json!({"body": "c", "title": "c", "kw": "y", "n": 1}),
+        json!({"body": ["a", "", "b"], "title": "ab", "kw": "x", "n": 2}),
+        json!({"body": ["c", "a b"], "title": "b a", "kw": "y", "n": 2}),
+      ],
+      docs_core: vec![
+        json!({"body": "a", "title": "b", "kw": "x", "n": 1}),
+        json!({"body": "b", "title": "a", "kw": "y", "n": 2}),
+        json!({"body": ["a", "b"], "title": "c", "kw": "x", "n": 2}),
+        json!({"body": "c", "title": "c", "kw": "y", "n": 1}),
+      ],
+      tokens: vec!["a", "b", "c"],
+      phrases: vec![vec!["a", "b"], vec!["b", "a"], vec!["a"]],
+      prefixes: vec!["a"],
+      wildcards: vec!["a*b"],
+      regexes: vec!["(a|b)"],
+      core: ("a", "b", "c"),
+    },
+  ]
+}
+
+fn s(x: &str) -> String {
+  x.to_string()
+}
+
+/// The full leaf alphabet of a spec, followed by the indices of the core leaves (slice B) and the
+/// indices usable under a fuzzy option (slice C).
+fn leaf_alphabet(sp: &Spec) -> (Vec<Leaf>, Vec<usize>) {
+  let mut l: Vec<Leaf> = Vec::new();
+  let f0 = sp.text_fields[0];
+  let (a, b, c) = sp.core;
+  // --- core leaves first (indices 0..)
+  l.push(Leaf::MatchAll);
+  l.push(Leaf::Term { field: s(f0), value: s(a) });
+  l.push(Leaf::Term { field: s(f0), value: s(b) });
+  l.push(Leaf::Phrase { field: Some(s(f0)), terms: vec![s(a), s(b)], slop: 0 });
+  l.push(Leaf::Prefix { field: s(f0), value: sp.prefixes[0].to_string() });
+  let mut core: Vec<usize> = (0..5).collect();
+  if sp.kw {
+    l.push(Leaf::ConstScore { field: s("kw"), value: s("x") });
+    core.push(5);
+  }
+  // --- terms
+  for f in &sp.text_fields {
+    for t in &sp.tokens {
+      if *f == f0 && (*t == a || *t == b) {
+        continue;
+      }
+      l.push(Leaf::Term { field: s(f), value: s(t) });
+    }
+  }
+  // --- query_string variants
+  let qs = |text: String, legacy: bool, fields: Option<Vec<String>>, terms: Vec<Scoped>, nots: Vec<Scoped>, phrases: Vec<(Option<String>, Vec<String>)>| Leaf::Qs { text, legacy, fields, terms, nots, phrases };
+  for legacy in [false, true] {
+    l.push(qs(s(a), legacy, None, vec![(None, s(a))], vec![], vec![]));
+    l.push(qs(format!("{a} {b}"), legacy, None, vec![(None, s(a)), (None, s(b))], vec![], vec![]));
+    l.push(qs(format!("{a} -{b}"), legacy, None, vec![(None, s(a))], vec![(None, s(b))], vec![]));
+    l.push(qs(format!("\"{a} {b}\""), legacy, None, vec![], vec![], vec![(None, vec![s(a), s(b)])]));
+  }
+  l.push(qs(format!("{b} {c}"), false, None, vec![(None, s(b)), (None, s(c))], vec![], vec![]));
+  l.push(qs(format!("{b} -{a}"), false, None, vec![(None, s(b))], vec![(None, s(a))], vec![]));
+  l.push(qs(format!("{a} {b} -{c}"), false, None, vec![(None, s(a)), (None, s(b))], vec![(None, s(c))], vec![]));
+  for f in &sp.text_fields {
+    l.push(qs(format!("{f}:{a}"), false, None, vec![(Some(s(f)), s(a))], vec![], vec![]));
+    l.push(qs(format!("{f}:{a} -{f}:{b}"), false, None, vec![(Some(s(f)), s(a))], vec![(Some(s(f)), s(b))], vec![]));
+    l.push(qs(format!("\"{f}:{a} {b}\""), false, None, vec![], vec![], vec![(Some(s(f)), vec![s(a), s(b)])]));
+    l.push(qs(s(a), false, Some(vec![s(f)]), vec![(None, s(a))], vec![], vec![]));
+    l.push(qs(format!("{b} -{a}"), false, Some(vec![s(f)]), vec![(None, s(b))], vec![(None, s(a))], vec![]));
+  }
+  // --- phrases
+  for (pi, p) in sp.phrases.iter().enumerate() {
+    let terms: Vec<String> = p.iter().map(|x| s(x)).collect();
+    for slop in [0u32, 1, 2] {
+      if p.len() == 1 && slop > 0 {
+        continue;
+      }
+      if pi == 0 && slop == 0 {
+        continue; // core leaf
+      }
+      l.push(Leaf::Phrase { field: Some(s(f0)), terms: terms.clone(), slop });
+    }
+    if pi < 2 {
+      l.push(Leaf::Phrase { field: None, terms: terms.clone(), slop: 0 });
+      l.push(Leaf::Phrase { field: None, terms: terms.clone(), slop: 1 });
+      if sp.text_fields.len() > 1 {
+        l.push(Leaf::Phrase { field: Some(s(sp.text_fields[1])), terms: terms.clone(), slop: 0 });
+      }
+    }
+  }
+  // --- patterns
+  for (i, p) in sp.prefixes.iter().enumerate() {
+    if i > 0 {
+      l.push(Leaf::Prefix { field: s(f0), value: s(p) });
+    }
+  }
+  if sp.text_fields.len() > 1 {
+    l.push(Leaf::Prefix { field: s(sp.text_fields[1]), value: s(sp.prefixes[0]) });
+  }
+  for p in &sp.wildcards {
+    l.push(Leaf::Wildcard { field: s(f0), value: s(p) });
+  }
+  for p in &sp.regexes {
+    l.push(Leaf::Regex { field: s(f0), value: s(p) });
+  }
+  // --- multi_match: 3 types x operator x minimum_should_match
+  let fields: Vec<String> = sp.text_fields.iter().map(|f| s(f)).collect();
+  for mtype in ["best_fields", "most_fields", "cross_fields"] {
+    for terms in [vec![s(a)], vec![s(a), s(b)]] {
+      let n = terms.len();
+      let mut variants: Vec<(Option<bool>, Option<Msm>)> = vec![(None, None), (Some(false), None), (Some(true), None)];
+      if n == 2 {
+        variants.push((None, Some(Msm::Count(1))));
+        variants.push((None, Some(Msm::Count(2))));
+        variants.push((Some(false), Some(Msm::Pct(50))));
+        variants.push((Some(false), Some(Msm::Pct(100))));
+      }
+      for (and, msm) in variants {
+        l.push(Leaf::MultiMatch { terms: terms.clone(), fields: fields.clone(), mtype: s(mtype), and, msm });
+      }
+    }
+    if sp.text_fields.len() > 1 {
+      l.push(Leaf::MultiMatch { terms: vec![s(a), s(b)], fields: vec![s(sp.text_fields[1])], mtype: s(mtype), and: Some(true), msm: None });
+    }
+  }
+  if sp.kw {
+    l.push(Leaf::ConstScore { field: s("kw"), value: s("y") });
+    l.push(Leaf::RankFeature { field: s("n") });
+  }
+  (l, core)
+}
+
+// ---------------------------------------------------------------------------------------------
+// Oracle: an independent boolean evaluator over the analyzer's token streams.
+//
+// Rules and where they are pinned (R = /repo/README.md, P = property statement, D = DESIGN §C07):
+//  term          a document matches when the field holds one of the tokens the field's search
+//                analyzer produces for the value (P "every indexed word of a document finds that
+//                document"; R synonyms "expanded at the same position"). Values that analyze to
+//                nothing or to several positions are not demanded.
+//  query_string  R "supports field:term, phrases in quotes ("field:exact phrase"), and negation with
+//                a leading -term"; bare terms are OR-ed over the default fields (D; schema text
+//                "null or omitted means schema defaults"), a quoted phrase must occur, -t excludes.
+//  phrase        R "phrase now accepts slop (positions of wiggle room)", "allows one gap between
+//                terms": tokens at increasing positions whose gaps sum to <= slop.
+//  prefix/wildcard/regex  R "analyzes the input with the field's search analyzer, expands against
+//                the segment term dictionary ..., and ORs the resulting terms": any indexed term of
+//                the field that starts with / matches the pattern.
+//  multi_match   R "cross_fields (treat fields as one blended field)", "operator", "minimum_should_
+//                match accepts counts or percentages".
+//  bool          P "should clauses are optional whenever it has a must or filter clause and no
+//                minimum_should_match"; D: all must, no must_not, all filter, should >= msm,
+//                msm defaults to 1 only without must and filter.
+//  dis_max       R "picks the best-scoring child query": any child.
+//  constant_score R "wraps a filter-only query ... when the filter matches"; KeywordEq is R
+//                "Keyword filters are case-insensitive".
+//  function_score R example with min_score; D: the inner query minus documents scoring below it.
+//  script_score / rank_feature  R "Numeric boosts", "guarded script score": scoring only.
+
+type Tok = (String, u32);
+
+struct Ana {
+  index: HashMap<String, Analyzer>,
+  search: HashMap<String, Analyzer>,
+  text_fields: Vec<String>,
+}
+
+impl Ana {
+  fn new(schema_json: &Value) -> Ana {
+    let sch = schema(schema_json.clone());
+    let an = sch.build_analyzers().expect("analyzers");
+    let mut index = HashMap::new();
+    let mut search = HashMap::new();
+    let mut text_fields = Vec::new();
+    for f in sch.text_fields.iter() {
+      text_fields.push(f.name.clone());
+      index.insert(f.name.clone(), an.index_analyzer(&f.name).expect("index analyzer").clone());
+      search.insert(f.name.clone(), an.search_analyzer(&f.name).expect("search analyzer").clone());
+    }
+    Ana { index, search, text_fields }
+  }
+  fn index_toks(&self, field: &str, text: &str) -> Vec<Tok> {
+    self.index[field].analyze(text).into_iter().map(|t| (t.text, t.position)).collect()
+  }
+  fn search_toks(&self, field: &str, text: &str) -> Vec<Tok> {
+    match self.search.get(field) {
+      Some(a) => a.analyze(text).into_iter().map(|t| (t.text, t.position)).collect(),
+      None => Vec::new(),
+    }
+  }
+}
+
+/// Per-document view: for every text field the token stream of every value; keyword values.
+struct DocView {
+  text: HashMap<String, Vec<Vec<Tok>>>,
+  kw: HashMap<String, Vec<String>>,
+}
+
+struct View<'a> {
+  ana: &'a Ana,
+  docs: Vec<DocView>,
+  ids: Vec<String>,
+  live: u8,
+}
+
+fn values_of(v: &Value) -> Vec<String> {
+  match v {
+    Value::String(s) => vec![s.clone()],
+    Value::Array(a) => a.iter().filter_map(|x| x.as_str().map(|s| s.to_string())).collect(),
+    _ => vec![],
+  }
+}
+
+impl<'a> View<'a> {
+  fn new(ana: &'a Ana, world: &World) -> View<'a> {
+    let mut docs = Vec::new();
+    let mut ids = Vec::new();
+    let mut live = 0u8;
+    for (i, d) in world.docs.iter().enumerate() {
+      let id = d["_id"].as_str().unwrap().to_string();
+      if !world.deleted.contains(&id) {
+        live |= 1 << i;
+      }
+      ids.push(id);
+      let mut text = HashMap::new();
+      let mut kw = HashMap::new();
+      for (k, v) in d.as_object().unwrap() {
+        if ana.index.contains_key(k) {
+          let vals: Vec<Vec<Tok>> = values_of(v).iter().map(|t| ana.index_toks(k, t)).collect();
+          text.insert(k.clone(), vals);
+        } else if k != "_id" && (v.is_string() || v.is_array()) {
+          kw.insert(k.clone(), values_of(v));
+        }
+      }
+      docs.push(DocView { text, kw });
+    }
+    View { ana, docs, ids, live }
+  }
+  fn n(&self) -> usize {
+    self.docs.len()
+  }
+  fn all(&self) -> u8 {
+    ((1u16 << self.n()) - 1) as u8
+  }
+  fn field_tokens(&self, d: usize, field: &str) -> Vec<&str> {
+    match self.docs[d].text.get(field) {
+      Some(vals) => vals.iter().flat_map(|v| v.iter().map(|t| t.0.as_str())).collect(),
+      None => vec![],
+    }
+  }
+}
+
+fn lev(a: &str, b: &str) -> usize {
+  let a: Vec<char> = a.chars().collect();
+  let b: Vec<char> = b.chars().collect();
+  let mut d = vec![vec![0usize; b.len() + 1]; a.len() + 1];
+  for i in 0..=a.len() {
+    d[i][0] = i;
+  }
+  for j in 0..=b.len() {
+    d[0][j] = j;
+  }
+  for i in 1..=a.len() {
+    for j in 1..=b.len() {
+      let c = if a[i - 1] == b[j - 1] { 0 } else { 1 };
+      d[i][j] = (d[i - 1][j] + 1).min(d[i][j - 1] + 1).min(d[i - 1][j - 1] + c);
+    }
+  }
+  d[a.len()][b.len()]
+}
+
+/// Does query token `t` select indexed token `u`? None = not defined by the docs.
+fn tok_eq(t: &str, u: &str, fz: Option<&Fuzzy>) -> Option<bool> {
+  if t == u {
+    return Some(true);
+  }
+  let Some(f) = fz else { return Some(false) };
+  let tl = t.chars().count();
+  if tl < f.prefix_length {
+    return None;
+  }
+  if tl < f.min_length {
+    return Some(false);
+  }
+  let tp: String = t.chars().take(f.prefix_length).collect();
+  let up: String = u.chars().take(f.prefix_length).collect();
+  if tp != up {
+    return Some(false);
+  }
+  Some(lev(t, u) <= f.max_edits as usize)
+}
+
+fn wildcard_match(p: &[char], t: &[char]) -> bool {
+  match p.first() {
+    None => t.is_empty(),
+    Some('*') => (0..=t.len()).any(|k| wildcard_match(&p[1..], &t[k..])),
+    Some('?') => !t.is_empty() && wildcard_match(&p[1..], &t[1..]),
+    Some(c) => !t.is_empty() && t[0] == *c && wildcard_match(&p[1..], &t[1..]),
+  }
+}
+
+/// Is there an assignment of increasing positions, one per query position, whose gaps sum to <= slop?
+fn phrase_in_stream(alts: &[Vec<String>], stream: &[Tok], slop: u32) -> bool {
+  fn rec(alts: &[Vec<String>], stream: &[Tok], i: usize, prev: u32, left: i64) -> bool {
+    if i == alts.len() {
+      return true;
+    }
+    for (txt, pos) in stream {
+      if *pos > prev && alts[i].contains(txt) {
+        let gap = (*pos - prev - 1) as i64;
+        if gap <= left && rec(alts, stream, i + 1, *pos, left - gap) {
+          return true;
+        }
+      }
+    }
+    false
+  }
+  stream.iter().any(|(txt, pos)| alts[0].contains(txt) && rec(alts, stream, 1, *pos, slop as i64))
+}
+
+/// Result of evaluating one leaf over a world.
+#[derive(Clone, Copy, Default, Debug)]
+struct LeafEval {
+  /// documents that satisfy the leaf; None = the documentation does not decide this leaf here
+  mask: Option<u8>,
+  /// documents that hold at least one term the leaf contributes to scoring (classifier input)
+  scored: u8,
+  /// leaf produces scored terms at all (term, query_string terms, multi_match, patterns)
+  term_bearing: bool,
+  /// classifier input: the mask if a wildcard/regex pattern is replaced by the single token the
+  /// search analyzer reduces it to
+  alt: Option<u8>,
+  /// classifier input: the mask if a regex only sees dictionary terms that start with the pattern's
+  /// leading literal characters even though the last of them is quantified (`ab?` scans `ab...`)
+  alt_prefix: Option<u8>,
+  /// leaf installs its own score node (constant_score, rank_feature)
+  custom_score: bool,
+}
+
+impl<'a> View<'a> {
+  /// Query-side alternatives for a term value in a field: Some(tokens) iff the search analyzer
+  /// yields at least one token and all of them sit at one position.
+  fn term_alts(&self, field: &str, value: &str) -> Option<Vec<String>> {
+    let toks = self.ana.search_toks(field, value);
+    if toks.is_empty() || toks.iter().any(|t| t.1 != toks[0].1) {
+      return None;
+    }
+    Some(toks.into_iter().map(|t| t.0).collect())
+  }
+
+  fn doc_has_term(&self, d: usize, field: &str, value: &str, fz: Option<&Fuzzy>) -> Option<bool> {
+    if !self.ana.index.contains_key(field) {
+      return None;
+    }
+    let alts = self.term_alts(field, value)?;
+    let mut hit = false;
+    for u in self.field_tokens(d, field) {
+      for t in &alts {
+        if tok_eq(t, u, fz)? {
+          hit = true;
+        }
+      }
+    }
+    Some(hit)
+  }
+
+  fn doc_has_scoped(&self, d: usize, sc: &Scoped, default_fields: &[String], fz: Option<&Fuzzy>) -> Option<bool> {
+    match &sc.0 {
+      Some(f) => self.doc_has_term(d, f, &sc.1, fz),
+      None => {
+        let mut any = false;
+        for f in default_fields {
+          any |= self.doc_has_term(d, f, &sc.1, fz)?;
+        }
+        Some(any)
+      }
+    }
+  }
+
+  fn doc_has_phrase(&self, d: usize, field: &str, terms: &[String], slop: u32) -> Option<bool> {
+    let q = self.ana.search_toks(field, &terms.join(" "));
+    if q.is_empty() {
+      return None;
+    }
+    let maxp = q.iter().map(|t| t.1).max().unwrap();
+    let mut alts: Vec<Vec<String>> = vec![Vec::new(); maxp as usize + 1];
+    for (t, p) in q {
+      alts[p as usize].push(t);
+    }
+    if alts.iter().any(|a| a.is_empty()) {
+      return None;
+    }
+    let Some(vals) = self.docs[d].text.get(field) else { return Some(false) };
+    // reading 1: the phrase lies inside one value
+    let inside = vals.iter().any(|v| phrase_in_stream(&alts, v, slop));
+    // reading 2: values form one stream without position gaps
+    let mut cat: Vec<Tok> = Vec::new();
+    let mut off = 0u32;
+    for v in vals {
+      let mut mx = None;
+      for (t, p) in v {
+        cat.push((t.clone(), off + p));
+        mx = Some(mx.map_or(*p, |m: u32| m.max(*p)));
+      }
+      if let Some(m) = mx {
+        off += m + 1;
+      }
+    }
+    let across = phrase_in_stream(&alts, &cat, slop);
+    if inside == across {
+      Some(inside)
+    } else {
+      None
+    }
+  }
+
+  fn eval_leaf(&self, leaf: &Leaf, fz: Option<&Fuzzy>) -> LeafEval {
+    let n = self.n();
+    let mut out = LeafEval { mask: Some(0), scored: 0, term_bearing: false, alt: None, alt_prefix: None, custom_score: false };
+    if fz.is_some() && !leaf.fuzzy_ok() {
+      out.mask = None;
+      return out;
+    }
+    let per_doc = |f: &dyn Fn(usize) -> Option<bool>| -> Option<u8> {
+      let mut m = 0u8;
+      for d in 0..n {
+        if f(d)? {
+          m |= 1 << d;
+        }
+      }
+      Some(m)
+    };
+    match leaf {
+      Leaf::MatchAll => out.mask = Some(self.all()),
+      Leaf::RankFeature { .. } => {
+        out.mask = Some(self.all());
+        out.custom_score = true;
+      }
+      Leaf::Term { field, value } => {
+        out.term_bearing = true;
+        out.mask = per_doc(&|d| self.doc_has_term(d, field, value, fz));
+        out.scored = out.mask.unwrap_or(0);
+      }
+      Leaf::Qs { fields, terms, nots, phrases, .. } => {
+        let defaults: Vec<String> = fields.clone().unwrap_or_else(|| self.ana.text_fields.clone());
+        out.term_bearing = !terms.is_empty();
+        let pos = per_doc(&|d| {
+          let mut any = false;
+          for t in terms {
+            any |= self.doc_has_scoped(d, t, &defaults, fz)?;
+          }
+          Some(any)
+        });
+        out.scored = pos.unwrap_or(0);
+        out.mask = per_doc(&|d| {
+          let mut ok = true;
+          for t in nots {
+            if self.doc_has_scoped(d, t, &defaults, None)? {
+              ok = false;
+            }
+          }
+          for (pf, pt) in phrases {
+            let fs: Vec<String> = match pf {
+              Some(f) => vec![f.clone()],
+              None => defaults.clone(),
+            };
+            let mut any = false;
+            for f in &fs {
+              any |= self.doc_has_phrase(d, f, pt, 0)?;
+            }
+            ok &= any;
+          }
+          if !terms.is_empty() {
+            let mut any = false;
+            for t in terms {
+              any |= self.doc_has_scoped(d, t, &defaults, fz)?;
+            }
+            ok &= any;
+          }
+          Some(ok)
+        });
+        if pos.is_none() {
+          out.mask = None;
+        }
+      }
+      Leaf::Phrase { field, terms, slop } => {
+        let fs: Vec<String> = match field {
+          Some(f) => vec![f.clone()],
+          None => self.ana.text_fields.clone(),
+        };
+        out.mask = per_doc(&|d| {
+          let mut any = false;
+          for f in &fs {
+            any |= self.doc_has_phrase(d, f, terms, *slop)?;
+          }
+          Some(any)
+        });
+      }
+      Leaf::Prefix { field, value } => {
+        out.term_bearing = true;
+        let toks = self.ana.search_toks(field, value);
+        if toks.len() != 1 {
+          out.mask = None;
+        } else {
+          let p = toks[0].0.clone();
+          out.mask = per_doc(&|d| Some(self.field_tokens(d, field).iter().any(|u| u.starts_with(p.as_str()))));
+        }
+        out.scored = out.mask.unwrap_or(0);
+      }
+      Leaf::Wildcard { field, value } => {
+        out.term_bearing = true;
+        let p: Vec<char> = value.chars().collect();
+        out.mask = per_doc(&|d| Some(self.field_tokens(d, field).iter().any(|u| wildcard_match(&p, &u.chars().collect::<Vec<_>>()))));
+        out.scored = out.mask.unwrap_or(0);
+        let toks = self.ana.search_toks(field, value);
+        if toks.len() == 1 && toks[0].0 != *value {
+          let t = toks[0].0.clone();
+          out.alt = per_doc(&|d| Some(self.field_tokens(d, field).iter().any(|u| *u == t.as_str())));
+        }
+      }
+      Leaf::Regex { field, value } => {
+        out.term_bearing = true;
+        let anch = regex::Regex::new(&format!("^(?:{value})$")).expect("regex");
+        let free = regex::Regex::new(value).expect("regex");
+        out.mask = per_doc(&|d| {
+          let toks = self.field_tokens(d, field);
+          let a = toks.iter().any(|u| anch.is_match(u));
+          let b = toks.iter().any(|u| free.is_match(u));
+          if a == b {
+            Some(a)
+          } else {
+            None
+          }
+        });
+        out.scored = out.mask.unwrap_or(0);
+        let toks = self.ana.search_toks(field, value);
+        if toks.len() == 1 && toks[0].0 != *value {
+          let t = toks[0].0.clone();
+          out.alt = per_doc(&|d| Some(self.field_tokens(d, field).iter().any(|u| *u == t.as_str())));
+        }
+        let lit: String = value.chars().take_while(|c| !".*+?()[]{}|$\\^".contains(*c)).collect();
+        let next = value.chars().nth(lit.chars().count());
+        if !lit.is_empty() && matches!(next, Some('?') | Some('*') | Some('{')) {
+          out.alt_prefix = per_doc(&|d| Some(self.field_tokens(d, field).iter().any(|u| u.starts_with(lit.as_str()) && anch.is_match(u))));
+        }
+      }
+      Leaf::MultiMatch { terms, fields, mtype, and, msm } => {
+        out.term_bearing = true;
+        let nt = terms.len();
+        let required: Option<usize> = if *and == Some(true) {
+          if msm.is_some() {
+            None
+          } else {
+            Some(nt)
+          }
+        } else {
+          match msm {
+            None => Some(1),
+            Some(Msm::Count(k)) if *k >= 1 && *k <= nt => Some(*k),
+            Some(Msm::Count(_)) => None,
+            Some(Msm::Pct(p)) => {
+              if (*p as usize * nt) % 100 == 0 && *p > 0 {
+                Some(*p as usize * nt / 100)
+              } else {
+                None
+              }
+            }
+          }
+        };
+        let anyterm = per_doc(&|d| {
+          let mut any = false;
+          for t in terms {
+            for f in fields {
+              any |= self.doc_has_term(d, f, t, fz)?;
+            }
+          }
+          Some(any)
+        });
+        out.scored = anyterm.unwrap_or(0);
+        out.mask = match (required, anyterm) {
+          (Some(req), Some(_)) => per_doc(&|d| {
+            let mut blended = 0;
+            let mut best_field = 0;
+            for t in terms {
+              let mut any = false;
+              for f in fields {
+                any |= self.doc_has_term(d, f, t, fz)?;
+              }
+              if any {
+                blended += 1;
+              }
+            }
+            for f in fields {
+              let mut c = 0;
+              for t in terms {
+                if self.doc_has_term(d, f, t, fz)? {
+                  c += 1;
+                }
+              }
+              best_field = best_field.max(c);
+            }
+            let bl = blended >= req;
+            let pf = best_field >= req;
+            if mtype == "cross_fields" || bl == pf {
+              Some(bl)
+            } else {
+              None
+            }
+          }),
+          _ => None,
+        };
+      }
+      Leaf::ConstScore { field, value } => {
+        out.custom_score = true;
+        out.mask = per_doc(&|d| Some(self.docs[d].kw.get(field).map_or(false, |vs| vs.iter().any(|v| v.to_lowercase() == value.to_lowercase()))));
+      }
+    }
+    out
+  }
+}
+
+/// Per-node evaluation result.
+#[derive(Clone, Copy)]
+struct TreeEval {
+  mask: u8,
+  /// documents holding a scored term of a leaf in scoring position (not under must_not)
+  scored: u8,
+  term_bearing: bool,
+}
+
+const ALT_REDUCED: u8 = 1;
+const ALT_PREFIX: u8 = 2;
+const ALT_MIN_SCORE_HOOK: u8 = 4;
+
+/// Evaluate a tree. `alt` = 0 is the documented semantics; the ALT_* bits select readings that model
+/// one known defect each and are only used to classify a failure.
+fn eval_tree(t: &Tree, le: &[LeafEval], v: &View, alt: u8) -> Option<TreeEval> {
+  eval_node(t, le, v, alt, true)
+}
+
+/// Model of the scoring hook for ALT_MIN_SCORE_HOOK: (node is empty, documents for which the score
+/// tree yields a score). A function_score yields no score for a document that matches its inner
+/// query but falls below min_score; a sum / dis_max yields a score if any part does.
+fn score_some(t: &Tree, le: &[LeafEval], v: &View, alt: u8, scoring: bool) -> Option<(bool, u8)> {
+  let all = v.all();
+  Some(match t {
+    Tree::L(i) => {
+      let e = &le[*i];
+      if e.custom_score || (e.term_bearing && scoring) {
+        (false, all)
+      } else {
+        (true, all)
+      }
+    }
+    Tree::Bool { must, should, must_not, .. } => combine_some(must.iter().chain(should).map(|c| (c, scoring)).chain(must_not.iter().map(|c| (c, false))), le, v, alt)?,
+    Tree::DisMax(ts) => combine_some(ts.iter().map(|c| (c, scoring)), le, v, alt)?,
+    Tree::Fs { inner, min_score } => {
+      let m = eval_node(inner, le, v, alt, false)?.mask;
+      let (be, bs) = score_some(inner, le, v, alt, scoring)?;
+      let base = if be { all } else { bs };
+      let keep = if min_score.map_or(false, |x| x > 2.0) { 0 } else { all };
+      (false, (!m & all) | (base & keep))
+    }
+    Tree::Ss(inner) => {
+      let m = eval_node(inner, le, v, alt, false)?.mask;
+      let (be, bs) = score_some(inner, le, v, alt, scoring)?;
+      (false, (!m & all) | if be { all } else { bs })
+    }
+  })
+}
+
+fn combine_some<'t>(kids: impl Iterator<Item = (&'t Tree, bool)>, le: &[LeafEval], v: &View, alt: u8) -> Option<(bool, u8)> {
+  let mut n = 0;
+  let mut some = 0u8;
+  for (c, sc) in kids {
+    let (e, s) = score_some(c, le, v, alt, sc)?;
+    if !e {
+      n += 1;
+      some |= s;
+    }
+  }
+  Some(if n == 0 { (true, v.all()) } else { (false, some) })
+}
+
+fn eval_node(t: &Tree, le: &[LeafEval], v: &View, alt: u8, _root: bool) -> Option<TreeEval> {
+  let eval_tree = |t: &Tree, le: &[LeafEval], v: &View, alt: u8| eval_node(t, le, v, alt, false);
+  Some(match t {
+    Tree::L(i) => {
+      let e = &le[*i];
+      let (m, changed) = if alt & ALT_REDUCED != 0 && e.alt.is_some() {
+        (e.alt, true)
+      } else if alt & ALT_PREFIX != 0 && e.alt_prefix.is_some() {
+        (e.alt_prefix, true)
+      } else {
+        (e.mask, false)
+      };
+      let m = m?;
+      TreeEval { mask: m, scored: if changed { m } else { e.scored }, term_bearing: e.term_bearing }
+    }
+    Tree::Bool { must, should, must_not, filter, msm } => {
+      let mut mask = v.all();
+      let mut scored = 0;
+      let mut tb = false;
+      for c in must {
+        let e = eval_tree(c, le, v, alt)?;
+        mask &= e.mask;
+        scored |= e.scored;
+        tb |= e.term_bearing;
+      }
+      for c in must_not {
+        let e = eval_tree(c, le, v, alt)?;
+        mask &= !e.mask;
+      }
+      if let Some((f, val)) = filter {
+        let mut fm = 0u8;
+        for d in 0..v.n() {
+          if v.docs[d].kw.get(f).map_or(false, |vs| vs.iter().any(|x| x.to_lowercase() == val.to_lowercase())) {
+            fm |= 1 << d;
+          }
+        }
+        mask &= fm;
+      }
+      let mut counts = [0usize; 8];
+      for c in should {
+        let e = eval_tree(c, le, v, alt)?;
+        scored |= e.scored;
+        tb |= e.term_bearing;
+        for d in 0..v.n() {
+          if e.mask & (1 << d) != 0 {
+            counts[d] += 1;
+          }
+        }
+      }
+      let need = match msm {
+        Some(m) => *m,
+        None => {
+          if !should.is_empty() && must.is_empty() && filter.is_none() {
+            1
+          } else {
+            0
+          }
+        }
+      };
+      for d in 0..v.n() {
+        if counts[d] < need {
+          mask &= !(1 << d);
+        }
+      }
+      TreeEval { mask, scored, term_bearing: tb }
+    }
+    Tree::DisMax(ts) => {
+      let mut r = TreeEval { mask: 0, scored: 0, term_bearing: false };
+      for c in ts {
+        let e = eval_tree(c, le, v, alt)?;
+        r.mask |= e.mask;
+        r.scored |= e.scored;
+        r.term_bearing |= e.term_bearing;
+      }
+      r
+    }
+    Tree::Fs { inner, min_score } => {
+      let mut e = eval_tree(inner, le, v, alt)?;
+      // functions=[weight 2], boost_mode=replace: every matching document scores 2
+      if let Some(m) = min_score {
+        if 2.0 < *m && alt & ALT_MIN_SCORE_HOOK == 0 {
+          e.mask = 0;
+        }
+      }
+      e
+    }
+    Tree::Ss(inner) => eval_tree(inner, le, v, alt)?,
+  })
+}
+
+// ---------------------------------------------------------------------------------------------
+// Tree enumeration (exhaustive inside the stated bounds; children of one clause list are kept in
+// non-decreasing alphabet order because clause lists are unordered by the documented semantics).
+
+const ROLES: usize = 3; // must, should, must_not
+
+fn msm_options(n_should: usize) -> Vec<Option<usize>> {
+  let mut v = vec![None];
+  if n_should >= 1 {
+    v.push(Some(0));
+    v.push(Some(1));
+  }
+  if n_should >= 2 {
+    v.push(Some(n_should));
+  }
+  v
+}
+
+/// All bool nodes whose children are a multiset of (role, pool item) with 1..=max_children children
+/// and at most max_leaves leaves, x filter options x minimum_should_match options.
+fn gen_bools(pool: &[Tree], max_children: usize, max_leaves: usize, filters: &[Option<(String, String)>], all_msm: bool, keep: &dyn Fn(&[usize]) -> bool) -> Vec<Tree> {
+  let combos = ROLES * pool.len();
+  let sizes: Vec<usize> = pool.iter().map(|t| t.n_leaves()).collect();
+  let mut out = Vec::new();
+  fn rec(start: usize, combos: usize, cur: &mut Vec<usize>, leaves: usize, max_children: usize, max_leaves: usize, sizes: &[usize], npool: usize, sink: &mut Vec<Vec<usize>>) {
+    if !cur.is_empty() {
+      sink.push(cur.clone());
+    }
+    if cur.len() == max_children {
+      return;
+    }
+    for c in start..combos {
+      let sz = sizes[c % npool];
+      if leaves + sz > max_leaves {
+        continue;
+      }
+      cur.push(c);
+      rec(c, combos, cur, leaves + sz, max_children, max_leaves, sizes, npool, sink);
+      cur.pop();
+    }
+  }
+  let mut sel = Vec::new();
+  rec(0, combos, &mut Vec::new(), 0, max_children, max_leaves, &sizes, pool.len(), &mut sel);
+  sel.sort_by(|a, b| (a.len(), a.as_slice()).cmp(&(b.len(), b.as_slice())));
+  for s in sel {
+    let items: Vec<usize> = s.iter().map(|c| c % pool.len()).collect();
+    if !keep(&items) {
+      continue;
+    }
+    let mut parts: [Vec<Tree>; 3] = [vec![], vec![], vec![]];
+    for c in &s {
+      parts[c / pool.len()].push(pool[c % pool.len()].clone());
+    }
+    let msms = if all_msm { msm_options(parts[1].len()) } else { vec![None] };
+    for f in filters {
+      for m in &msms {
+        out.push(Tree::Bool { must: parts[0].clone(), should: parts[1].clone(), must_not: parts[2].clone(), filter: f.clone(), msm: *m });
+      }
+    }
+  }
+  out
+}
+
+fn gen_dismax(pool: &[Tree], max_children: usize, max_leaves: usize, keep: &dyn Fn(&[usize]) -> bool) -> Vec<Tree> {
+  let mut out = Vec::new();
+  for k in 1..=max_children {
+    for ms in multisets(pool.len(), k) {
+      let leaves: usize = ms.iter().map(|i| pool[*i].n_leaves()).sum();
+      if leaves > max_leaves || !keep(&ms) {
+        continue;
+      }
+      out.push(Tree::DisMax(ms.iter().map(|i| pool[*i].clone()).collect()));
+    }
+  }
+  out
+}
+
+fn unary_wrappers(t: &Tree) -> Vec<Tree> {
+  let b = |t: &Tree| Box::new(t.clone());
+  vec![
+    Tree::Fs { inner: b(t), min_score: None },
+    Tree::Fs { inner: b(t), min_score: Some(1.0) },
+    Tree::Fs { inner: b(t), min_score: Some(3.0) },
+    Tree::Ss(b(t)),
+    Tree::Bool { must: vec![t.clone()], should: vec![], must_not: vec![], filter: None, msm: None },
+    Tree::Bool { must: vec![], should: vec![t.clone()], must_not: vec![], filter: None, msm: None },
+    Tree::Bool { must: vec![], should: vec![], must_not: vec![t.clone()], filter: None, msm: None },
+    Tree::DisMax(vec![t.clone()]),
+  ]
+}
+
+fn chain_wrappers(t: &Tree) -> Vec<Tree> {
+  let b = |t: &Tree| Box::new(t.clone());
+  vec![
+    Tree::Bool { must: vec![t.clone()], should: vec![], must_not: vec![], filter: None, msm: None },
+    Tree::Bool { must: vec![], should: vec![t.clone()], must_not: vec![], filter: None, msm: None },
+    Tree::Bool { must: vec![], should: vec![], must_not: vec![t.clone()], filter: None, msm: None },
+    Tree::Fs { inner: b(t), min_score: Some(3.0) },
+  ]
+}
+
+/// Slice A: every leaf of the full alphabet alone and under each unary wrapper.
+fn trees_slice_a(leaves: &[Leaf], kw: bool) -> Vec<Tree> {
+  let nleaves = leaves.len();
+  let mut out: Vec<Tree> = (0..nleaves).map(Tree::L).collect();
+  for i in 0..nleaves {
+    if matches!(leaves[i], Leaf::Qs { legacy: true, .. }) {
+      continue; // a bare string is only accepted as the root query
+    }
+    out.extend(unary_wrappers(&Tree::L(i)));
+    if kw {
+      out.push(Tree::Bool { must: vec![Tree::L(i)], should: vec![], must_not: vec![], filter: Some((s("kw"), s("x"))), msm: None });
+      out.push(Tree::Bool { must: vec![], should: vec![Tree::L(i)], must_not: vec![], filter: Some((s("kw"), s("y"))), msm: None });
+    }
+  }
+  out
+}
+
+/// Slice B: all trees over the core leaves up to the tier's leaf / depth bound.
+fn trees_slice_b(core: &[usize], kw: bool, quick: bool) -> (Vec<Tree>, String) {
+  let core: Vec<usize> = if quick { core.iter().cloned().filter(|i| *i != 4).collect() } else { core.to_vec() };
+  let atoms: Vec<Tree> = core.iter().map(|i| Tree::L(*i)).collect();
+  let filters: Vec<Option<(String, String)>> = if kw { vec![None, Some((s("kw"), s("x")))] } else { vec![None] };
+  let any = |_: &[usize]| true;
+  let mut out: Vec<Tree> = Vec::new();
+  // depth 1, flat
+  let flat3 = gen_bools(&atoms, 3, 3, &filters, true, &any);
+  let dm3 = gen_dismax(&atoms, 3, 3, &any);
+  out.extend(flat3.iter().cloned());
+  out.extend(dm3.iter().cloned());
+  // wrappers over atoms (depth 1) and chains of single-child wrappers
+  let mut chain: Vec<Tree> = atoms.clone();
+  let chain_depth = if quick { 2 } else { 4 };
+  for d in 1..=chain_depth {
+    let mut next = Vec::new();
+    for t in &chain {
+      next.extend(chain_wrappers(t));
+    }
+    if d >= 2 {
+      out.extend(next.iter().cloned());
+    }
+    chain = next;
+  }
+  for a in &atoms {
+    for w in unary_wrappers(a) {
+      if !matches!(w, Tree::Bool { .. } | Tree::DisMax(_)) {
+        out.push(w);
+      }
+    }
+  }
+  // function_score (keeping / dropping min_score) next to a leaf, in every pair of roles
+  for (i, a) in atoms.iter().enumerate() {
+    for m in [1.0f32, 3.0] {
+      let fs = Tree::Fs { inner: Box::new(a.clone()), min_score: Some(m) };
+      for b in atoms.iter().skip(if quick { i } else { 0 }) {
+        let pool = vec![fs.clone(), b.clone()];
+        let both = |items: &[usize]| items.len() == 2 && items[0] != items[1];
+        out.extend(gen_bools(&pool, 2, 2, &[None], false, &both));
+        out.push(Tree::DisMax(vec![fs.clone(), b.clone()]));
+      }
+    }
+  }
+  // depth 2: unary wrappers over every 2-leaf compound
+  let two: Vec<Tree> = flat3.iter().chain(dm3.iter()).filter(|t| t.n_leaves() == 2).cloned().collect();
+  for c in &two {
+    out.extend(unary_wrappers(c));
+  }
+  let mut desc = format!(
+    "core leaves {} ; bool with <=3 leaf children (multiset of role x leaf) x filter {} x minimum_should_match {{none,0,1,#should}}, dis_max with <=3 leaf children, 4 unary scoring wrappers over leaves, single-child chains (must/should/must_not/function_score min_score>score) to depth {}, 8 unary wrappers over every 2-leaf compound, function_score(leaf, min_score below/above the score) beside a leaf in every pair of clause roles and in dis_max",
+    core.len(),
+    filters.len(),
+    chain_depth
+  );
+  if !quick {
+    // 3 leaves, depth 2: a 2-leaf compound (minimum_should_match none) next to a leaf
+    let two_plain: Vec<Tree> = two.iter().filter(|t| !matches!(t, Tree::Bool { msm: Some(_), .. } | Tree::Bool { filter: Some(_), .. })).cloned().collect();
+    for c in &two_plain {
+      for rc in 0..ROLES {
+        for ra in 0..ROLES {
+          for a in &atoms {
+            let mut parts: [Vec<Tree>; 3] = [vec![], vec![], vec![]];
+            parts[rc].push(c.clone());
+            parts[ra].push(a.clone());
+            for m in msm_options(parts[1].len()) {
+              out.push(Tree::Bool { must: parts[0].clone(), should: parts[1].clone(), must_not: parts[2].clone(), filter: None, msm: m });
+            }
+          }
+        }
+      }
+      for a in &atoms {
+        out.push(Tree::DisMax(vec![c.clone(), a.clone()]));
+      }
+    }
+    // 4 leaves flat over the first four core leaves
+    let four: Vec<Tree> = atoms.iter().take(4).cloned().collect();
+    let exactly4 = |items: &[usize]| items.len() == 4;
+    out.extend(gen_bools(&four, 4, 4, &[None], true, &exactly4));
+    out.extend(gen_dismax(&four, 4, 4, &exactly4));
+    desc.push_str(" ; 3-leaf depth-2 trees (bool / dis_max holding one 2-leaf compound and one leaf) ; flat 4-leaf bool / dis_max over the first 4 core leaves");
+  }
+  (out, desc)
+}
+
+/// Slice C: trees sent together with a fuzzy option.
+fn trees_slice_c(leaves: &[Leaf]) -> Vec<Tree> {
+  let ok: Vec<usize> = (0..leaves.len()).filter(|i| leaves[*i].fuzzy_ok() && !matches!(leaves[*i], Leaf::MatchAll)).collect();
+  // legacy strings are root-only; pairs below are built from term leaves only
+  let mut out: Vec<Tree> = ok.iter().map(|i| Tree::L(*i)).collect();
+  let terms: Vec<usize> = ok.iter().cloned().filter(|i| matches!(leaves[*i], Leaf::Term { .. })).take(5).collect();
+  for (x, i) in terms.iter().enumerate() {
+    for j in terms.iter().skip(x + 1) {
+      out.push(Tree::Bool { must: vec![Tree::L(*i), Tree::L(*j)], should: vec![], must_not: vec![], filter: None, msm: None });
+      out.push(Tree::Bool { must: vec![], should: vec![Tree::L(*i), Tree::L(*j)], must_not: vec![], filter: None, msm: None });
+      out.push(Tree::DisMax(vec![Tree::L(*i), Tree::L(*j)]));
+    }
+  }
+  out
+}
+
+// ---------------------------------------------------------------------------------------------
+// Worlds
+
+fn gen_worlds(sp: &Spec, shapes: &[Value], max_docs: usize) -> Vec<World> {
+  let idx: Vec<usize> = (0..shapes.len()).collect();
+  let mut out = Vec::new();
+  for seq in sequences(&idx, 1, max_docs) {
+    let docs: Vec<Value> = seq
+      .iter()
+      .enumerate()
+      .map(|(i, sidx)| {
+        let mut d = shapes[*sidx].clone();
+        d["_id"] = json!(id_of(i));
+        d
+      })
+      .collect();
+    for lay in compositions(docs.len()) {
+      for del in 0..=docs.len() {
+        let mut w = World::new(sp.name, sp.schema.clone(), docs.clone()).with_layout(lay.clone());
+        if del > 0 {
+          w.deleted = vec![id_of(del - 1)];
+        }
+        out.push(w);
+      }
+    }
+  }
+  out
+}
+
+// ---------------------------------------------------------------------------------------------
+// Judging one case, classification of failures
+
+const SIG_H6_SHOULD: &str = "C07-should-clause-required-when-scored-terms";
+const SIG_H6_OTHER: &str = "C07-unscored-alternative-dropped-when-scored-terms";
+const SIG_REDUCED: &str = "C07-wildcard-regex-pattern-reduced-by-analyzer";
+const SIG_PREFIX: &str = "C07-regex-prefix-scan-includes-quantified-char";
+const SIG_MIN_SCORE_HOOK: &str = "C07-function-score-min-score-applied-by-score-hook-not-matcher";
+const SIG_H6_SUFFIX: &str = "+scored-terms-candidates";
+const H9_PANIC: &str = "Inconsistent leaf for term key";
+
+enum Outcome {
+  Pass { expected: u8 },
+  Undetermined,
+  /// debug assertion of H9 (same term key in two scoring leaves): owned by C10 / C16, not judged
+  H9Panic,
+  Fail { sig: Option<String>, what: String, expected: u8, actual: Option<u8> },
+}
+
+fn ids_of(mask: u8, v: &View) -> Vec<String> {
+  (0..v.n()).filter(|d| mask & (1 << d) != 0).map(|d| v.ids[d].clone()).collect()
+}
+
+/// Static: is there a term-bearing leaf in scoring position inside `t`?
+fn term_bearing(t: &Tree, le: &[LeafEval]) -> bool {
+  match t {
+    Tree::L(i) => le[*i].term_bearing,
+    Tree::Bool { must, should, .. } => must.iter().chain(should).any(|c| term_bearing(c, le)),
+    Tree::DisMax(ts) => ts.iter().any(|c| term_bearing(c, le)),
+    Tree::Fs { inner, .. } => term_bearing(inner, le),
+    Tree::Ss(inner) => term_bearing(inner, le),
+  }
+}
+
+/// The shape named in the property: a bool with a must or filter clause, no (or zero)
+/// minimum_should_match, and a should clause that contributes scored terms.
+fn has_optional_should_with_terms(t: &Tree, le: &[LeafEval]) -> bool {
+  match t {
+    Tree::L(_) => false,
+    Tree::Bool { must, should, must_not: _, filter, msm } => {
+      let here = (!must.is_empty() || filter.is_some()) && matches!(msm, None | Some(0)) && should.iter().any(|c| term_bearing(c, le));
+      here || must.iter().chain(should).any(|c| has_optional_should_with_terms(c, le))
+    }
+    Tree::DisMax(ts) => ts.iter().any(|c| has_optional_should_with_terms(c, le)),
+    Tree::Fs { inner, .. } => has_optional_should_with_terms(inner, le),
+    Tree::Ss(inner) => has_optional_should_with_terms(inner, le),
+  }
+}
+
+fn has_dropping_fs(t: &Tree) -> bool {
+  match t {
+    Tree::L(_) => false,
+    Tree::Bool { must, should, must_not, .. } => must.iter().chain(should).chain(must_not).any(has_dropping_fs),
+    Tree::DisMax(ts) => ts.iter().any(has_dropping_fs),
+    Tree::Fs { inner, min_score } => min_score.map_or(false, |m| m > 2.0) || has_dropping_fs(inner),
+    Tree::Ss(inner) => has_dropping_fs(inner),
+  }
+}
+
+/// Narrow classifiers; each models ONE defect of the code and must reproduce the observed set
+/// exactly, otherwise the failure stays unexplained.
+///  * scored-terms candidates (H6): when the query has scored terms, candidates are the postings
+///    of those terms only: observed = expected ∩ {documents holding a scored term}.
+///  * pattern reduced: a wildcard / regex pattern that the search analyzer reduces to one different
+///    token is executed as that literal token.
+///  * regex prefix: the dictionary scan uses the leading literal characters of a regex although the
+///    last one is quantified (? * {).
+///  * min_score in the scoring hook: a function_score matches like its inner query; min_score only
+///    makes the score tree yield no score, and a document is dropped when the whole score tree
+///    yields none (so a sibling's score rescues it and an optional clause can veto it).
+fn classify(t: &Tree, le: &[LeafEval], v: &View, e: &TreeEval, actual: u8) -> Option<String> {
+  let exp = e.mask & v.live;
+  let h6 = |t: &Tree| if has_optional_should_with_terms(t, le) { SIG_H6_SHOULD } else { SIG_H6_OTHER };
+  if e.term_bearing && actual != exp && actual == exp & e.scored {
+    return Some(h6(t).to_string());
+  }
+  let mut ids = Vec::new();
+  t.leaf_ids(&mut ids);
+  let mut kinds = 0u8;
+  if ids.iter().any(|i| le[*i].alt.is_some()) {
+    kinds |= ALT_REDUCED;
+  }
+  if ids.iter().any(|i| le[*i].alt_prefix.is_some()) {
+    kinds |= ALT_PREFIX;
+  }
+  if has_dropping_fs(t) {
+    kinds |= ALT_MIN_SCORE_HOOK;
+  }
+  let mut subsets: Vec<u8> = (1u8..8).filter(|sub| sub & !kinds == 0).collect();
+  subsets.sort_by_key(|x| x.count_ones());
+  for sub in subsets {
+    let Some(ea) = eval_tree(t, le, v, sub) else { continue };
+    let mut ex2 = ea.mask & v.live;
+    if sub & ALT_MIN_SCORE_HOOK != 0 {
+      let Some((empty, some)) = score_some(t, le, v, sub, true) else { continue };
+      if !empty {
+        ex2 &= some;
+      }
+    }
+    let mut name: Vec<&str> = Vec::new();
+    for (bit, nm) in [(ALT_REDUCED, SIG_REDUCED), (ALT_PREFIX, SIG_PREFIX), (ALT_MIN_SCORE_HOOK, SIG_MIN_SCORE_HOOK)] {
+      if sub & bit != 0 {
+        name.push(nm);
+      }
+    }
+    if actual == ex2 {
+      return Some(name.join("+"));
+    }
+    if ea.term_bearing && actual == ex2 & ea.scored {
+      return Some(format!("{}{}", name.join("+"), SIG_H6_SUFFIX));
+    }
+  }
+  None
+}
+
+fn judge(t: &Tree, le: &[LeafEval], v: &View, res: &Result<searchlite_core::api::SearchResult, String>, obligation: bool) -> Outcome {
+  let Some(e) = eval_tree(t, le, v, 0) else { return Outcome::Undetermined };
+  let expected = e.mask & v.live;
+  let r = match res {
+    Ok(r) => r,
+    Err(msg) => {
+      if msg.contains(H9_PANIC) {
+        return Outcome::H9Panic;
+      }
+      return Outcome::Fail { sig: None, what: format!("search failed: {msg}"), expected, actual: None };
+    }
+  };
+  let mut actual = 0u8;
+  for h in &r.hits {
+    match v.ids.iter().position(|x| *x == h.doc_id) {
+      Some(d) => {
+        if actual & (1 << d) != 0 {
+          return Outcome::Fail { sig: None, what: format!("document {} returned twice", h.doc_id), expected, actual: None };
+        }
+        actual |= 1 << d;
+      }
+      None => return Outcome::Fail { sig: None, what: format!("unknown document id {} returned", h.doc_id), expected, actual: None },
+    }
+  }
+  if r.next_cursor.is_some() {
+    return Outcome::Fail { sig: None, what: "limit 100 does not cover the corpus (next_cursor present)".into(), expected, actual: Some(actual) };
+  }
+  if obligation {
+    if expected & !actual != 0 {
+      return Outcome::Fail { sig: None, what: format!("an indexed word does not find its document: missing {:?}", ids_of(expected & !actual, v)), expected, actual: Some(actual) };
+    }
+    return Outcome::Pass { expected };
+  }
+  if actual == expected {
+    return Outcome::Pass { expected };
+  }
+  let sig = classify(t, le, v, &e, actual);
+  let what = format!("returned {:?}, documented semantics give {:?} (missing {:?}, unexpected {:?})", ids_of(actual, v), ids_of(expected, v), ids_of(expected & !actual, v), ids_of(actual & !expected, v));
+  Outcome::Fail { sig, what, expected, actual: Some(actual) }
+}
+
+fn build_request(query: &Value, fz: Option<&Fuzzy>) -> SearchRequest {
+  let mut r = json!({"query": query, "limit": 100, "execution": "bm25"});
+  if let Some(f) = fz {
+    r["fuzzy"] = f.to_json();
+  }
+  match try_req(r) {
+    Ok(r) => r,
+    Err(e) => vcore::ev::machinery_failure(&format!("query alphabet produced an unparsable request {query}: {e:#}")),
+  }
+}
+
+/// Self-contained description of a case (replay input).
+fn case_json(world: &World, leaves: &[Leaf], t: &Tree, fz: Option<&Fuzzy>, obligation: bool, expected: Vec<String>, observed: Option<Vec<String>>) -> Value {
+  let mut ids = Vec::new();
+  t.leaf_ids(&mut ids);
+  let uniq: Vec<usize> = ids.iter().cloned().collect::<BTreeSet<_>>().into_iter().collect();
+  let map: HashMap<usize, usize> = uniq.iter().enumerate().map(|(n, o)| (*o, n)).collect();
+  let used: Vec<Leaf> = uniq.iter().map(|i| leaves[*i].clone()).collect();
+  let tr = t.remap(&map);
+  json!({"engine": "inputmc-query", "world": world.to_json(), "leaves": used, "tree": tr, "fuzzy": fz,
+    "obligation": obligation, "query": tr.to_json(&used), "expected": expected, "observed": observed})
+}
+
+/// Run one self-contained case from scratch (replay, and double-run of witnesses).
+fn run_case(cs: &Value) -> Result<Option<(Option<String>, String)>, String> {
+  let world = World::from_json(&cs["world"]);
+  let leaves: Vec<Leaf> = serde_json::from_value(cs["leaves"].clone()).map_err(|e| format!("leaves: {e}"))?;
+  let tree: Tree = serde_json::from_value(cs["tree"].clone()).map_err(|e| format!("tree: {e}"))?;
+  let fz: Option<Fuzzy> = serde_json::from_value(cs["fuzzy"].clone()).map_err(|e| format!("fuzzy: {e}"))?;
+  let obligation = cs["obligation"].as_bool().unwrap_or(false);
+  let ana = Ana::new(&world.schema_json);
+  let view = View::new(&ana, &world);
+  let le: Vec<LeafEval> = leaves.iter().map(|l| view.eval_leaf(l, fz.as_ref())).collect();
+  let idx = world.build();
+  let reader = idx.reader().map_err(|e| format!("reader: {e:#}"))?;
+  let rq = build_request(&tree.to_json(&leaves), fz.as_ref());
+  let res = search_caught(&reader, &rq);
+  Ok(match judge(&tree, &le, &view, &res, obligation) {
+    Outcome::Fail { sig, what, .. } => Some((sig, what)),
+    _ => None,
+  })
+}
+
+// ---------------------------------------------------------------------------------------------
+// Accumulation: per signature a count and the smallest witnesses (rank = simplest first).
+
+type Rank = (usize, usize, usize, usize, usize, usize, usize, usize);
+
+struct SigAcc {
+  count: u64,
+  best: Vec<(Rank, String, Value)>,
+}
+
+struct Acc {
+  evals: AtomicU64,
+  nontrivial: AtomicU64,
+  undetermined: AtomicU64,
+  h9: AtomicU64,
+  obligations: AtomicU64,
+  worlds_done: AtomicU64,
+  outcomes: Mutex<BTreeSet<String>>,
+  fails: Mutex<BTreeMap<String, SigAcc>>,
+  per_slice: Mutex<BTreeMap<String, (u64, u64)>>,
+  /// triage aid: unexplained failures grouped by (schema, query), bounded
+  unexplained: Mutex<BTreeMap<String, u64>>,
+  /// per spec, per leaf: was the leaf decided by the oracle in at least one world?
+  decided: Vec<Vec<AtomicBool>>,
+}
+
+impl Acc {
+  fn record_fail(&self, sig: Option<String>, rank: Rank, mk: &dyn Fn() -> (String, Value)) {
+    let key = sig.unwrap_or_else(|| "-".to_string());
+    let mut f = self.fails.lock();
+    let e = f.entry(key).or_insert_with(|| SigAcc { count: 0, best: Vec::new() });
+    e.count += 1;
+    let keep = 3;
+    if e.best.len() < keep || rank < e.best.last().unwrap().0 {
+      let (what, case) = mk();
+      e.best.push((rank, what, case));
+      e.best.sort_by(|a, b| a.0.cmp(&b.0));
+      e.best.truncate(keep);
+    }
+  }
+}
+
+struct Prepared {
+  tree: Tree,
+  req: SearchRequest,
+  n_leaves: usize,
+  depth: usize,
+  fuzzy: Option<usize>,
+}
+
+struct Slice {
+  name: &'static str,
+  ord: usize,
+  spec: usize,
+  trees: Vec<Prepared>,
+  worlds: Vec<World>,
+  obligations: bool,
+}
+
+fn prepare(trees: Vec<Tree>, leaves: &[Leaf], fz: Option<(usize, &Fuzzy)>) -> Vec<Prepared> {
+  trees
+    .into_par_iter()
+    .map(|t| {
+      let q = t.to_json(leaves);
+      Prepared { req: build_request(&q, fz.map(|f| f.1)), n_leaves: t.n_leaves(), depth: t.depth(), fuzzy: fz.map(|f| f.0), tree: t }
+    })
+    .collect()
+}
+
+// ---------------------------------------------------------------------------------------------
+
+fn run_world(acc: &Acc, sl: &Slice, widx: usize, sp_leaves: &[Leaf], ana: &Ana, fz_opts: &[Fuzzy]) {
+  let world = &sl.worlds[widx];
+  let view = View::new(ana, world);
+  let idx = world.build();
+  let reader = match idx.reader() {
+    Ok(r) => r,
+    Err(e) => vcore::ev::machinery_failure(&format!("reader for {}: {e:#}", world.describe())),
+  };
+  // leaf evaluations: index 0 = no fuzzy, 1.. = fuzzy options
+  let mut les: Vec<Option<Vec<LeafEval>>> = vec![None; fz_opts.len() + 1];
+  let nlive = view.live.count_ones() as usize;
+  let mut evals = 0u64;
+  let mut nontrivial = 0u64;
+  let mut undetermined = 0u64;
+  let mut h9 = 0u64;
+  let mut local_outcomes: BTreeSet<(u32, usize)> = BTreeSet::new();
+  for (tidx, p) in sl.trees.iter().enumerate() {
+    let slot = p.fuzzy.map_or(0, |f| f + 1);
+    if les[slot].is_none() {
+      let fz = p.fuzzy.map(|f| &fz_opts[f]);
+      let ev: Vec<LeafEval> = sp_leaves.iter().map(|l| view.eval_leaf(l, fz)).collect();
+      if slot == 0 {
+        for (i, e) in ev.iter().enumerate() {
+          if e.mask.is_some() {
+            acc.decided[sl.spec][i].store(true, Ordering::Relaxed);
+          }
+        }
+      }
+      les[slot] = Some(ev);
+    }
+    let le = les[slot].as_ref().unwrap();
+    // cheap pre-check: skip undetermined cases without searching
+    if eval_tree(&p.tree, le, &view, 0).is_none() {
+      undetermined += 1;
+      continue;
+    }
+    let res = search_caught(&reader, &p.req);
+    evals += 1;
+    match judge(&p.tree, le, &view, &res, false) {
+      Outcome::Pass { expected } => {
+        let k = expected.count_ones();
+        if k > 0 && (k as usize) < nlive {
+          nontrivial += 1;
+        }
+        local_outcomes.insert((k, nlive));
+      }
+      Outcome::Undetermined => undetermined += 1,
+      Outcome::H9Panic => h9 += 1,
+      // README shows function_score.min_score only by example and does not say how a clause that
+      // drops documents through min_score composes inside bool / must_not. Cases that are
+      // explained exactly by the "min_score acts on the final score, not on matching" reading are
+      // therefore not demanded (two admissible readings), not reported.
+      Outcome::Fail { sig: Some(ref s), .. } if s.contains(SIG_MIN_SCORE_HOOK) => undetermined += 1,
+      Outcome::Fail { sig, what, expected, actual } => {
+        let rank: Rank = (world.docs.len(), p.n_leaves, p.depth, world.layout.len(), world.deleted.len(), sl.ord, widx, tidx);
+        let fz = p.fuzzy.map(|f| &fz_opts[f]);
+        if sig.is_none() {
+          let mut u = acc.unexplained.lock();
+          if u.len() < 400 {
+            *u.entry(format!("{} {}{}", world.schema_name, p.tree.to_json(sp_leaves), fz.map(|f| format!(" fuzzy={}", f.to_json())).unwrap_or_default())).or_insert(0) += 1;
+          }
+        }
+        acc.record_fail(sig, rank, &|| {
+          let cs = case_json(world, sp_leaves, &p.tree, fz, false, ids_of(expected, &view), actual.map(|a| ids_of(a, &view)));
+          let w = format!("{} query={}{}: {}", world.describe(), cs["query"], fz.map(|f| format!(" fuzzy={}", f.to_json())).unwrap_or_default(), what);
+          (w, cs)
+        });
+      }
+    }
+  }
+  // second obligation: every token the index analyzer emits for a live document finds it
+  if sl.obligations {
+    let mut seen: BTreeSet<(String, String)> = BTreeSet::new();
+    for d in 0..view.n() {
+      if view.live & (1 << d) == 0 {
+        continue;
+      }
+      for f in &ana.text_fields {
+        for tok in view.field_tokens(d, f) {
+          if !seen.insert((f.clone(), tok.to_string())) {
+            continue;
+          }
+          // only where index and search analyzers agree on the token
+          let agrees = view.term_alts(f, tok).map_or(false, |a| a.iter().any(|x| x == tok));
+          if !agrees {
+            continue;
+          }
+          let leaf = Leaf::Term { field: f.clone(), value: tok.to_string() };
+          let le = vec![view.eval_leaf(&leaf, None)];
+          let tree = Tree::L(0);
+          let rq = build_request(&leaf.to_json(), None);
+          let res = search_caught(&reader, &rq);
+          acc.obligations.fetch_add(1, Ordering::Relaxed);
+          if let Outcome::Fail { sig, what, expected, actual } = judge(&tree, &le, &view, &res, true) {
+            let rank: Rank = (world.docs.len(), 1, 0, world.layout.len(), world.deleted.len(), sl.ord, widx, usize::MAX);
+            let leaves = vec![leaf.clone()];
+            acc.record_fail(sig, rank, &|| {
+              let cs = case_json(world, &leaves, &tree, None, true, ids_of(expected, &view), actual.map(|a| ids_of(a, &view)));
+              (format!("{} query={}: {}", world.describe(), cs["query"], what), cs)
+            });
+          }
+        }
+      }
+    }
+  }
+  acc.evals.fetch_add(evals, Ordering::Relaxed);
+  acc.nontrivial.fetch_add(nontrivial, Ordering::Relaxed);
+  acc.undetermined.fetch_add(undetermined, Ordering::Relaxed);
+  acc.h9.fetch_add(h9, Ordering::Relaxed);
+  acc.worlds_done.fetch_add(1, Ordering::Relaxed);
+  {
+    let mut o = acc.outcomes.lock();
+    for (k, n) in local_outcomes {
+      o.insert(format!("{k}of{n}"));
+    }
+  }
+  {
+    let mut ps = acc.per_slice.lock();
+    let e = ps.entry(format!("{}:{}", sl.name, world.schema_name)).or_insert((0, 0));
+    e.0 += 1;
+    e.1 += evals;
+  }
+}
+
+fn replay(path: &str) -> i32 {
+  let v: Value = serde_json::from_slice(&std::fs::read(path).expect("replay file")).expect("json");
+  let cs = &v["case"];
+  let (a, b) = (run_case(cs), run_case(cs));
+  let (a, b) = match (a, b) {
+    (Ok(a), Ok(b)) => (a, b),
+    (Err(e), _) | (_, Err(e)) => vcore::ev::machinery_failure(&format!("replay: {e}")),
+  };
+  if a.is_some() != b.is_some() || a.as_ref().map(|x| &x.1) != b.as_ref().map(|x| &x.1) {
+    vcore::ev::machinery_failure("NONDETERMINISM on replay");
+  }
+  match a {
+    Some((sig, what)) => {
+      println!("VIOLATION property=C07 replay={path}\n  signature: {}\n  what: query={} {}", sig.unwrap_or_else(|| "-".into()), cs["query"], what);
+      1
+    }
+    None => {
+      println!("replay: no violation");
+      0
+    }
+  }
+}
+
+pub fn run(ctx: &Ctx) -> i32 {
+  if let Some(path) = &ctx.replay {
+    return replay(path);
+  }
+  let rep = Reporter::new("C07", ctx.tier, "exploration");
+  let quick = ctx.tier.is_quick();
+  let sps = specs();
+  let fz_opts = fuzzy_options();
+  let anas: Vec<Ana> = sps.iter().map(|sp| Ana::new(&sp.schema)).collect();
+  let alphabets: Vec<(Vec<Leaf>, Vec<usize>)> = sps.iter().map(leaf_alphabet).collect();
+  let mut slices: Vec<Slice> = Vec::new();
+  let mut bounds: Vec<Value> = Vec::new();
+  for (si, sp) in sps.iter().enumerate() {
+    let (leaves, core) = &alphabets[si];
+    // slice A
+    let a_docs = if quick { 2 } else { 3 };
+    let ta = trees_slice_a(leaves, sp.kw);
+    let mut wa = gen_worlds(sp, &sp.docs_full, 2);
+    if !quick {
+      // 3-document corpora over the first 8 shapes
+      let eight: Vec<Value> = sp.docs_full.iter().take(8).cloned().collect();
+      wa.extend(gen_worlds(sp, &eight, 3).into_iter().filter(|w| w.docs.len() == 3));
+    }
+    if std::env::var("VERIF_C07_TIMING").is_ok() {
+      println!("  setup {} slice A generated at {:.1}s", sp.name, rep.elapsed_s());
+    }
+    bounds.push(json!({"slice": "A-leaf-semantics", "schema": sp.name, "doc_shapes": sp.docs_full.len(), "max_docs": a_docs, "doc_shapes_for_3_doc_corpora": 8, "worlds": wa.len(), "leaves": leaves.len(), "trees": ta.len()}));
+    slices.push(Slice { name: "A", ord: 2, spec: si, trees: prepare(ta, leaves, None), worlds: wa, obligations: true });
+    // slice B
+    let (b_shapes, b_docs): (Vec<Value>, usize) = if quick {
+      (sp.docs_core.iter().take(4).cloned().collect(), if si == 0 { 3 } else { 2 })
+    } else {
+      (sp.docs_core.clone(), 3)
+    };
+    // the full thorough tree set runs on the default-analyzer schemas (S0, S3); the analyzer
+    // variants get the quick tree set (combinator logic does not depend on the analyzer)
+    let full_b = !quick && (si == 0 || sp.kw);
+    let (tb, desc) = trees_slice_b(core, sp.kw, !full_b);
+    let mut wb = gen_worlds(sp, &b_shapes, b_docs);
+    if std::env::var("VERIF_C07_TIMING").is_ok() {
+      println!("  setup {} trees/worlds generated at {:.1}s", sp.name, rep.elapsed_s());
+    }
+    if !quick && !sp.kw {
+      // 4-document corpora over the first two core shapes
+      let two: Vec<Value> = sp.docs_core.iter().take(2).cloned().collect();
+      wb.extend(gen_worlds(sp, &two, 4).into_iter().filter(|w| w.docs.len() == 4));
+    }
+    bounds.push(json!({"slice": "B-combinators", "schema": sp.name, "doc_shapes": b_shapes.len(), "max_docs": if quick || sp.kw { b_docs } else { 4 }, "doc_shapes_for_4_doc_corpora": 2, "worlds": wb.len(), "trees": tb.len(), "tree_bound": desc}));
+    slices.push(Slice { name: "B", ord: 0, spec: si, trees: prepare(tb, leaves, None), worlds: wb, obligations: false });
+    // slice C
+    let tc = trees_slice_c(leaves);
+    let mut pc = Vec::new();
+    for (fi, f) in fz_opts.iter().enumerate() {
+      pc.extend(prepare(tc.clone(), leaves, Some((fi, f))));
+    }
+    let wc: Vec<World> = gen_worlds(sp, &sp.docs_full, 2);
+    bounds.push(json!({"slice": "C-fuzzy", "schema": sp.name, "doc_shapes": sp.docs_full.len(), "max_docs": 2, "worlds": wc.len(), "fuzzy_options": fz_opts.len(), "trees": pc.len()}));
+    slices.push(Slice { name: "C", ord: 1, spec: si, trees: pc, worlds: wc, obligations: false });
+  }
+  let acc = Acc {
+    evals: AtomicU64::new(0),
+    nontrivial: AtomicU64::new(0),
+    undetermined: AtomicU64::new(0),
+    h9: AtomicU64::new(0),
+    obligations: AtomicU64::new(0),
+    worlds_done: AtomicU64::new(0),
+    outcomes: Mutex::new(BTreeSet::new()),
+    fails: Mutex::new(BTreeMap::new()),
+    per_slice: Mutex::new(BTreeMap::new()),
+    unexplained: Mutex::new(BTreeMap::new()),
+    decided: alphabets.iter().map(|(l, _)| l.iter().map(|_| AtomicBool::new(false)).collect()).collect(),
+  };
+  // tasks: (slice, world), smallest worlds first
+  let mut tasks: Vec<(usize, usize)> = Vec::new();
+  for (sli, sl) in slices.iter().enumerate() {
+    for w in 0..sl.worlds.len() {
+      tasks.push((sli, w));
+    }
+  }
+  tasks.sort_by_key(|(sli, w)| (slices[*sli].worlds[*w].docs.len(), slices[*sli].ord, slices[*sli].spec, *w));
+  let total_worlds = tasks.len();
+  let deadline = std::env::var("VERIF_C07_BUDGET_S").ok().and_then(|s| s.parse::<f64>().ok()).unwrap_or(if quick { 33.0 } else { 870.0 });
+  let timed_out = AtomicBool::new(false);
+  println!("C07 {}: {} worlds, setup {:.1}s", ctx.tier.name(), total_worlds, rep.elapsed_s());
+  // in-order work queue (smallest worlds first), so that a wall-clock cap cuts off the largest worlds
+  let next = AtomicU64::new(0);
+  (0..vcore::threads()).into_par_iter().for_each(|_| loop {
+    let i = next.fetch_add(1, Ordering::Relaxed) as usize;
+    if i >= tasks.len() {
+      break;
+    }
+    if rep.elapsed_s() > deadline {
+      timed_out.store(true, Ordering::Relaxed);
+      break;
+    }
+    let (sli, w) = tasks[i];
+    let sl = &slices[sli];
+    run_world(&acc, sl, w, &alphabets[sl.spec].0, &anas[sl.spec], &fz_opts);
+  });
+  rep.add_evals(acc.evals.load(Ordering::Relaxed) + acc.obligations.load(Ordering::Relaxed));
+  // a sample of judged cases, written out
+  {
+    let sp = &sps[0];
+    let (leaves, _) = &alphabets[0];
+    let w = World::new(sp.name, sp.schema.clone(), vec![json!({"_id": "A", "body": "a b"}), json!({"_id": "B", "body": "b"})]).with_layout(vec![1, 1]);
+    let view = View::new(&anas[0], &w);
+    for t in [Tree::L(3), Tree::Bool { must: vec![Tree::L(2)], should: vec![], must_not: vec![Tree::L(1)], filter: None, msm: None }] {
+      let le: Vec<LeafEval> = leaves.iter().map(|l| view.eval_leaf(l, None)).collect();
+      let e = eval_tree(&t, &le, &view, 0).map(|e| ids_of(e.mask & view.live, &view));
+      rep.sample(json!({"world": w.describe(), "query": t.to_json(leaves), "oracle": e}));
+    }
+  }
+  // report failures: unexplained first, then one minimal witness per signature, then the counts
+  let fails = acc.fails.lock();
+  let mut classes = serde_json::Map::new();
+  let mut order: Vec<&String> = fails.keys().collect();
+  order.sort_by_key(|k| (k.as_str() != "-", (*k).clone()));
+  // pass 1: the minimal witnesses (re-run from scratch twice each), one replay file per class
+  let wdir = vcore::ev::verif_dir().join("replays").join("C07");
+  let _ = std::fs::create_dir_all(&wdir);
+  for k in &order {
+    let sa = &fails[*k];
+    let sig: Option<&str> = if k.as_str() == "-" { None } else { Some(k.as_str()) };
+    let take = if sig.is_none() { 3 } else { 1 };
+    for (n, (_, what, case)) in sa.best.iter().take(take).enumerate() {
+      let (r1, r2) = (run_case(case), run_case(case));
+      match (&r1, &r2) {
+        (Ok(Some(a)), Ok(Some(b))) if a.1 == b.1 => {}
+        _ => vcore::ev::machinery_failure(&format!("NONDETERMINISM: witness does not reproduce identically: {what}")),
+      }
+      let wpath = wdir.join(format!("witness-{}-{}.json", if sig.is_none() { "unexplained" } else { k.as_str() }, n));
+      let _ = std::fs::write(&wpath, serde_json::to_string_pretty(&json!({"property": "C07", "signature": sig, "what": what, "case": case})).unwrap());
+      println!("FAILURE-CLASS property=C07 signature={} cases={} replay={}", k, sa.count, wpath.display());
+      rep.fail(sig, what, case.clone());
+    }
+    classes.insert((*k).clone(), json!({"cases": sa.count, "minimal_witness": sa.best.first().map(|b| json!({"what": b.1, "query": b.2["query"], "world": {"docs": b.2["world"]["docs"], "layout": b.2["world"]["layout"], "deleted": b.2["world"]["deleted"]}, "expected": b.2["expected"], "observed": b.2["observed"]}))}));
+  }
+  // pass 2: the remaining cases of each class are counted (replayable through the class witness)
+  for k in &order {
+    let sa = &fails[*k];
+    let sig: Option<&str> = if k.as_str() == "-" { None } else { Some(k.as_str()) };
+    let reported = sa.best.len().min(if sig.is_none() { 3 } else { 1 }) as u64;
+    let (w, c) = sa.best.first().map(|b| (format!("[further case of this class] {}", b.1), b.2.clone())).unwrap_or_default();
+    let known = sig.map_or(false, |x| rep.is_known_open(x));
+    for _ in reported..sa.count {
+      let case = if !known && rep.violations() < 5 { c.clone() } else { Value::Null };
+      rep.fail(sig, &w, case);
+    }
+  }
+  let distinct = acc.outcomes.lock().len();
+  let to = timed_out.load(Ordering::Relaxed);
+  if distinct < 2 && !to {
+    vcore::ev::machinery_failure("C07 vacuous: fewer than 2 distinct outcomes observed");
+  }
+  let per_slice: BTreeMap<String, Value> = acc.per_slice.lock().iter().map(|(k, v)| (k.clone(), json!({"worlds": v.0, "searches": v.1}))).collect();
+  let cov = vcore::cov! {
+    "distinct_nontrivial" => acc.nontrivial.load(Ordering::Relaxed),
+    "rule" => "a case = (world, query tree[, fuzzy option]); world = schema x sequence of document shapes x every segment layout (composition) x {no deletion, delete one document}; non-trivial = the oracle's hit set is a non-empty proper subset of the live documents and the search agreed. Slice A: all corpora over the full shape alphabet x every leaf alone and under 8 unary wrappers (+2 filter wrappers with a keyword field) + second obligation (term(field, token) for every token the index analyzer emits for a live document). Slice B: core shapes x ALL trees inside tree_bound. Slice C: fuzzy options x positive term leaves and pairs. Oracle: independent boolean evaluator over Analyzer::analyze token streams; cases the documentation does not decide are skipped and counted (undetermined).",
+    "bounds" => bounds,
+    "worlds" => total_worlds,
+    "worlds_completed" => acc.worlds_done.load(Ordering::Relaxed),
+    "searches_judged" => acc.evals.load(Ordering::Relaxed),
+    "second_obligation_searches" => acc.obligations.load(Ordering::Relaxed),
+    "undetermined_not_demanded" => acc.undetermined.load(Ordering::Relaxed),
+    "h9_debug_assert_panics_not_judged" => acc.h9.load(Ordering::Relaxed),
+    "per_slice" => per_slice,
+    "leaves_never_decided_by_the_documentation" => {
+      let mut v: Vec<String> = Vec::new();
+      for (si, sp) in sps.iter().enumerate() {
+        for (i, l) in alphabets[si].0.iter().enumerate() {
+          if !acc.decided[si][i].load(Ordering::Relaxed) {
+            v.push(format!("{} {}", sp.name, l.to_json()));
+          }
+        }
+      }
+      v
+    },
+    "failure_classes" => Value::Object(classes),
+    "unexplained_by_query" => {
+      let u = acc.unexplained.lock();
+      let mut v: Vec<(u64, String)> = u.iter().map(|(k, n)| (*n, k.clone())).collect();
+      v.sort_by(|a, b| b.0.cmp(&a.0));
+      v.truncate(40);
+      v
+    },
+    "distinct_observed_outcomes" => distinct,
+    "traces_validated_against_impl" => acc.evals.load(Ordering::Relaxed),
+    "cap_hit" => if to { Some(format!("wall budget {deadline}s")) } else { None },
+    "exhaustive" => !to,
+  };
+  rep.finish(cov, assumptions())
+}
+
+fn assumptions() -> Vec<String> {
+  [
+    "tokenisation is not under test: documents are tokenised with the schema's index analyzer and query text with its search analyzer through the public Analyzer::analyze",
+    "query_string: bare terms are OR-ed over the default (text) fields, a quoted phrase must occur, -term excludes (README names the three syntaxes; OR is DESIGN §C07's reading); a pure-negative string and strings mixing phrases with bare terms are not in the alphabet",
+    "term values that analyze to nothing (stop words) or to several positions are not demanded",
+    "phrases across the values of a multi-valued text field: demanded only when 'inside one value' and 'values concatenated without a gap' agree",
+    "regex: demanded only when anchored and unanchored readings agree on the document; wildcard is a full-term match with * and ?; only lower-case patterns",
+    "multi_match best_fields / most_fields with operator=and or minimum_should_match>1: demanded only when per-field and blended counting agree; operator=and together with minimum_should_match, counts above the number of terms and percentages that are not whole numbers of terms are not in the alphabet",
+    "bool minimum_should_match never exceeds the number of should clauses; bool filter / constant_score use KeywordEq on a lower-case single-valued keyword only (filter semantics belong to C08)",
+    "function_score is used with functions=[weight 2], boost_mode=replace so the score is 2 for every match; min_score 1 keeps, 3 drops, equality is not in the alphabet; script_score uses the finite script '_score + 1'; rank_feature only where every document has a positive value",
+    "fuzzy: Levenshtein distance <= max_edits (1,2) on terms of at least min_length characters sharing prefix_length characters; token alphabet has no transposition pairs; fuzzy is combined only with positive term leaves (no negation, phrase or pattern leaves)",
+    "expansion caps stay at their defaults and are never reached (<= 7 distinct terms per field)",
+    "requests that hit the debug assertion 'Inconsistent leaf for term key' (same term in two scoring leaves; hypothesis H9, owned by C10/C16) are counted and not judged here",
+    "term / query_string on keyword fields, search_as_you_type, cross_fields scoring, request-level `fields`, boosts and tie_breaker values are not in the alphabet",
+  ]
+  .iter()
+  .map(|s| s.to_string())
+  .collect()
 }
